@@ -48,6 +48,9 @@ pub trait VNullable { spec fn null_spec() -> Value; fn null() -> (r: Value) ensu
 pub trait VValueType: Sized {
     spec fn try_from_spec(v: Value) -> Result<Self, ValueTypeErr>;
     fn try_from(v: Value) -> (r: Result<Self, ValueTypeErr>) ensures r == Self::try_from_spec(v);
+    // the element type an array of Self is tagged with (one constant per type)
+    spec fn array_type_spec() -> ArrayType;
+    fn array_type() -> (r: ArrayType) ensures r == Self::array_type_spec();
 @@UNWRAP@@
 }
 pub trait Laws: VFrom + VNullable + VValueType {
@@ -87,6 +90,50 @@ fn c12_option_mismatch<T: Laws>(v: Value) -> (r: Result<Option<T>, ValueTypeErr>
     requires tag(v) != tag(T::null_spec())
     ensures r is Err
 { proof { T::law(arbitrary(), v); } opt_try_from::<T>(v) }
+'''
+
+ARRAY_SHIMS = r'''
+// ---- Vec<T> <-> Value::Array ----------------------------------------------------------------------------------------------------------
+pub open spec fn is_array_of<T: Laws>(r: Value, xs: Seq<T>) -> bool {
+    r matches Value::Array(ty, Some(b)) && ty == T::array_type_spec() && b@.len() == xs.len() && forall|i: int| 0 <= i < xs.len() ==> #[trigger] b@[i] == T::from_spec(xs[i])
+}
+// R-collect (trusted: Iterator::map / collect of std): `x.into_iter().map(|e| e.into()).collect()` is the list of the elements' conversions, in order
+#[verifier::external_body]
+fn vmap_from<T: Laws>(x: Vec<T>) -> (r: Vec<Value>)
+    ensures r@.len() == x@.len(), forall|i: int| 0 <= i < x@.len() ==> #[trigger] r@[i] == T::from_spec(x@[i])
+{ unimplemented!() }
+// `v.into_iter().map(|e| e.unwrap()).collect()`: ValueType::unwrap of every element (its contract: returns only if the element extracts), in order
+#[verifier::external_body]
+fn vmap_unwrap<T: Laws>(v: Box<Vec<Value>>) -> (r: Vec<T>)
+    ensures r@.len() == v@.len(), forall|i: int| 0 <= i < v@.len() ==> T::try_from_spec(#[trigger] v@[i]) == Ok::<T, ValueTypeErr>(r@[i])
+{ unimplemented!() }
+// #[derive(PartialEq)] on the fieldless enum ArrayType: structural (trusted)
+#[verifier::external_body]
+fn varraytype_eq(a: &ArrayType, b: &ArrayType) -> (r: bool) ensures r == (*a == *b) { unimplemented!() }
+'''
+
+ARRAY_THEOREMS = r'''
+// C12 for arrays, as verified compositions: a list of T converted into a Value and extracted again as Vec<T> is the same list;
+// an array of ANOTHER element type, a NULL array and every other variant fail
+fn c12_roundtrip_vec<T: Laws>(x: Vec<T>) -> (r: Result<Vec<T>, ValueTypeErr>)
+    ensures r is Ok && r->Ok_0@ =~= x@
+{
+    let ghost xs = x@;
+    let v = vec_from::<T>(x);
+    let r = vec_try_from::<T>(v);
+    proof {
+        assert(r is Ok);
+        assert forall|i: int| 0 <= i < xs.len() implies r->Ok_0@[i] == xs[i] by {
+            T::law(xs[i], arbitrary());
+            match v { Value::Array(_, Some(b)) => { assert(b@[i] == T::from_spec(xs[i])); assert(T::try_from_spec(b@[i]) == Ok::<T, ValueTypeErr>(r->Ok_0@[i])); } _ => {} }
+        }
+    }
+    r
+}
+fn c12_vec_mismatch<T: Laws>(v: Value) -> (r: Result<Vec<T>, ValueTypeErr>)
+    requires !(v matches Value::Array(ty, Some(_)) && ty == T::array_type_spec())
+    ensures r is Err
+{ vec_try_from::<T>(v) }
 '''
 
 EQ_SHIMS = r'''
@@ -282,6 +329,22 @@ fn vunwrap_res<T, E>(r: Result<T, E>) -> (x: T) ensures r == Ok::<T, E>(x) { uni
     v != T::null_spec() ==> r == (match T::try_from_spec(v) { Ok(x) => Ok::<Option<T>, ValueTypeErr>(Some(x)), Err(e) => Err(e) }),""",
          proofs={"body-start": "broadcast use ax_value_eq_null;\nproof { T::law(arbitrary(), v); }"})
     u.spec(OPTION_THEOREMS, "value::c12-theorems", props=P12)
+    # ---- Vec<T> <-> Value::Array (mod with_array, feature postgres-array): generic, verified once against the laws ------------------------
+    u.spec(ARRAY_SHIMS, "value::array-shims", props=P12)
+    AB = "mod with_array"
+    u.fn(F, "impl<T> From<Vec<T>> for Value where T: Into<Value> + NotU8 + ValueType,", "from", rename="vec_from", ret="r", props=P12, key="From<Vec<T>> for Value::from", vpath="vec_from",
+         rules=[make_r_sub("R-collect", r"x\.into_iter\(\)\.map\(\|e\| e\.into\(\)\)\.collect\(\)", "vmap_from::<T>(x)"), make_r_sub("R-generic", r"fn from\(", "fn from<T: Laws>(")],
+         spec="ensures\n    // an array tagged with T's element type, holding the conversion of every element, in order\n    is_array_of::<T>(r, x@),")
+    u.fn(F, "impl<T> ValueType for Vec<T> where T: NotU8 + ValueType,", "try_from", rename="vec_try_from", ret="r", props=P12, key="ValueType for Vec<T>::try_from", vpath="vec_try_from",
+         rules=[make_r_sub("R-collect", r"v\.into_iter\(\)\.map\(\|e\| e\.unwrap\(\)\)\.collect\(\)", "vmap_unwrap::<T>(v)"),
+                make_r_sub("R-eq", r"T::array_type\(\) == ty", "varraytype_eq(&T::array_type(), &ty)"),
+                make_r_sub("R-generic", r"fn try_from\(v: Value\) -> Result<Self, ValueTypeErr>", "fn try_from<T: Laws>(v: Value) -> Result<Vec<T>, ValueTypeErr>")],
+         spec="""ensures
+    // only a present array tagged with T's own element type extracts ..
+    r is Ok <==> (v matches Value::Array(ty, Some(b)) && ty == T::array_type_spec()),
+    // .. as the list of its elements' extractions, in order (an element that does not extract as T PANICS: the function does not return)
+    r is Ok ==> (v matches Value::Array(ty, Some(b)) && r->Ok_0@.len() == b@.len() && forall|i: int| 0 <= i < b@.len() ==> T::try_from_spec(#[trigger] b@[i]) == Ok::<T, ValueTypeErr>(r->Ok_0@[i])),""")
+    u.spec(ARRAY_THEOREMS, "value::c12-array-theorems", props=P12)
 
     # ---- as_null / dummy_value keep the variant --------------------------------------------------------------------------------
     u.emit("impl Value {\n")
@@ -536,6 +599,13 @@ def emit_impl(u, vp, ty, name, boxed, known_variants, how):
     u.emit("}\nimpl VValueType for %s {\n    open spec fn try_from_spec(v: Value) -> Result<Self, ValueTypeErr> { match v { Value::%s(Some(x)) => Ok(%s), _ => Err(ValueTypeErr) } }\n" % (vty, name, deref),
            kind="spec", key="try_from_spec:" + k, props=P12)
     u.fn(vp, blk("ValueType"), "try_from", ret="r", props=P12, key="ValueType for %s::try_from" % ty, vpath="%s::try_from" % vty, rules=[r_path], no_canary=True)
+    # an array of this type is tagged with the type's OWN element tag (the variant's name, as the macro writes it)
+    if name == "Vector":
+        # pgvector::Vector has no array form: its array_type() is `unimplemented!(..)` (never returns); no claim
+        u.emit("    uninterp spec fn array_type_spec() -> ArrayType;\n    #[verifier::external_body]\n    fn array_type() -> (r: ArrayType) { unimplemented!() }\n", kind="spec", key="array_type_spec:" + k, props=P12)
+    else:
+        u.emit("    open spec fn array_type_spec() -> ArrayType { ArrayType::%s }\n" % name, kind="spec", key="array_type_spec:" + k, props=P12)
+        u.fn(vp, blk("ValueType"), "array_type", ret="r", props=P12, key="ValueType for %s::array_type" % ty, vpath="%s::array_type" % vty, rules=[r_path], no_canary=True)
     u.emit("}\n// C12 for this type: the laws, proved from the three views above\nimpl Laws for %s { proof fn law(x: Self, v: Value) {} }\n" % vty, kind="spec", key="Laws for " + k, props=P12)
 
 
